@@ -561,6 +561,7 @@ func stepOfSSA(e ssa.Value, phi *ssa.Phi, depth int, seen map[ssa.Value]bool) (l
 		return 0, 0, false
 	}
 	seen[e] = true
+	defer delete(seen, e) // on-stack marking only: shared sub-values of a DAG are fine, cycles are not
 	switch v := e.(type) {
 	case *ssa.BinOp:
 		if v.Op != token.ADD {
